@@ -21,7 +21,8 @@ def akai_big():
                 {"name": "TWO", "n": 6000, "chain": [7, 5], "seq": 2},
                 {"name": "PAD-L", "n": 2000, "chain": [6], "seq": 3},
                 {"name": "PAD-R", "n": 2000, "chain": [8], "seq": 4}]},
-            {"name": "VOL2", "dir": [12], "files": [{"name": "THREE", "n": 12218, "chain": [9, 10, 11], "seq": 5}]}]},
+            {"name": "VOL2", "dir": [12], "files": [{"name": "THREE", "n": 12218, "chain": [9, 10, 11], "seq": 5},
+                                                     {"name": "AFTER", "n": 700, "chain": [13], "seq": 7}]}]},
         {"vols": [{"name": "VOLB", "dir": [3], "files": [{"name": "LAST", "n": 4026, "chain": [4], "seq": 6}]}]}]}
     return spec
 
@@ -41,12 +42,20 @@ def akai_subject(spec):
     P = 0
     for pi, part in enumerate(model["partitions"]):
         for vi, vol in enumerate(part["volumes"]):
-            dir_end = max(P + (c + 1) * S for c in vol["dir"]["chain"])
-            vol_need = max(dir_end, P + A.HDR_END)      # (other files of the volume are not needed)
             for fi, f in enumerate(vol["files"]):
                 if f.get("kind") != "sample":
                     continue
-                need = max([vol_need] + [P + (c + 1) * S for c in f["chain"]])
+                # exactly what the statement names: the partition header (with the volume entry), the file's OWN
+                # directory entry (entries are 24 bytes, in the first directory sector here), and its data sectors
+                # (the last one up to the last byte used)
+                own_entry_end = P + vol["dir"]["chain"][0] * S + 24 * (fi + 1)
+                nbytes = len(f["data"])
+                data_end = 0
+                for k, c in enumerate(f["chain"]):
+                    used = min(S, nbytes - k * S)
+                    if used > 0:
+                        data_end = max(data_end, P + c * S + used)
+                need = max(P + A.HDR_END, own_entry_end, data_end)
                 key = f"{'AB'[pi]}/{vol['name']}/{f['name']}"
                 samples[key] = {"pcm": A.words_bytes(f["words"][f["start"]:f["end"]]), "need": need}
         P += part["size"] * S
